@@ -667,6 +667,8 @@ func (v Value) Equals(b Value) bool {
 		return (b.t == TypeNil && v.value == nil) || v.value == b.value
 	case v.t == TypeNil && b.t == TypeNil:
 		return true
+	case v.t == TypeNil: // nil == x is x == nil (also what "switch x { case nil:" compares)
+		return b.Equals(v)
 	case v.t.base() == TypeSlice && b.t == TypeNil:
 		return v.value == nil
 	case v.t.base() == TypeMap && b.t == TypeNil:
